@@ -11,7 +11,7 @@ import (
 )
 
 func Run(r *report.Run) int {
-	shapes := []string{"S6-updates", "S4-split"}
+	shapes := []string{"S6-updates", "S4-split", "S7-removes"}
 	if r.Thorough() {
 		shapes = []string{"S6-updates", "S4-split", "S7-removes", "S3-leaf-insert", "S8-mixed", "S9-multistore", "S5-rootsplit"}
 	}
@@ -29,7 +29,7 @@ func Run(r *report.Run) int {
 	for i, c := range cases {
 		planned++
 		s := c.Scenario
-		fp := fmt.Sprintf("%s:%s#%d:%s", s.Shape, s.Label, s.Ord, s.Act)
+		fp := fmt.Sprintf("%s:aged=%v:%s#%d:%s", s.Shape, s.Aged, s.Label, s.Ord, s.Act)
 		if c.VictimExit != 77 {
 			r.Inconclusive("crash-site-not-reached")
 			r.Eval(fp, false)
